@@ -325,11 +325,11 @@ func tamperOps() []tamperOp {
 }
 
 type victimSnap struct {
-	head          common.Hash
-	root, idRoot  common.Hash
-	versions      string
-	dbDigest      string
-	dbKeys        int
+	head         common.Hash
+	root, idRoot common.Hash
+	versions     string
+	dbDigest     string
+	dbKeys       int
 }
 
 func snapVictim(v *Replica) victimSnap {
